@@ -517,4 +517,86 @@ theorem C18_erase_compares_key_under_lock : Gen.eraseComparesKey = true := by de
 
 theorem C18_lock_discipline : Gen.bucketOpsTakeLockFirst = true := by decide
 
+/-! ### towards linearizability: operations on different buckets commute
+
+  The sequential refinement (`C18_seq`) says what each operation does when it runs alone.  Under the lock discipline
+  re-extracted from the source (`C18_lock_discipline`: every single-bucket operation runs its whole body under that
+  bucket's lock; the whole-map operations hold every bucket's lock) two operations can overlap in time only when they
+  work on DIFFERENT buckets; the theorem below shows that such operations commute, state and results, so any
+  interleaving permitted by the locks is equivalent to running the operations one after the other in the order in
+  which they acquired their locks.  The reduction argument itself (Lipton movers over the lock acquisitions) is not
+  formalised: it is the stated residue of C18, searched for counter-examples by the threaded Wing–Gong check. -/
+
+open HM
+
+/-- the single-bucket operations -/
+inductive KeyOp (V : Type) where
+  | insert (k : Nat) (v : V) | erase (k : Nat) | find (k : Nat)
+
+def KeyOp.key {V} : KeyOp V → Nat
+  | .insert k _ => k | .erase k => k | .find k => k
+
+def KeyOp.op {V} : KeyOp V → Op V
+  | .insert k v => .insert k v | .erase k => .erase k | .find k => .find k
+
+theorem modify_comm {α} (l : List α) (i j : Nat) (f g : α → α) (h : i ≠ j) :
+    (l.modify i f).modify j g = (l.modify j g).modify i f := by
+  apply List.ext_getElem?
+  intro n
+  simp only [List.getElem?_modify]
+  by_cases h1 : i = n <;> by_cases h2 : j = n <;> simp_all
+
+theorem getD_modify_ne {α} (l : List α) (i j : Nat) (f : α → α) (d : α) (h : i ≠ j) :
+    (l.modify i f).getD j d = l.getD j d := by
+  simp [List.getD_eq_getElem?_getD, h]
+
+/-- what a single-bucket operation does to its bucket -/
+def KeyOp.upd {V} : KeyOp V → Bucket V → Bucket V
+  | .insert k v => fun b => addOrUpdate b k v
+  | .erase k => fun b => removeMapping b k
+  | .find _ => id
+
+/-- the bucket an operation works on is determined by its key alone; the other fields never change -/
+theorem step_keyop_shape {V} (m : Map V) (o : KeyOp V) :
+    (m.step o.op).1 = { m with buckets := m.buckets.modify (m.idx o.key) o.upd } := by
+  cases o with
+  | insert k v => rfl
+  | erase k => rfl
+  | find k => simp [Map.step, KeyOp.op, KeyOp.upd, List.modify_id]
+
+/-- the result of a single-bucket operation depends only on its own bucket -/
+theorem step_keyop_result {V} (m m' : Map V) (o : KeyOp V) (hn : m'.n = m.n) (hh : m'.hash = m.hash)
+    (hb : m'.buckets.getD (m.idx o.key) [] = m.buckets.getD (m.idx o.key) []) :
+    (m'.step o.op).2 = (m.step o.op).2 := by
+  have hidx : m'.idx o.key = m.idx o.key := by simp [Map.idx, hn, hh]
+  cases o with
+  | insert k v => rfl
+  | erase k => rfl
+  | find k =>
+    simp only [Map.step, KeyOp.op, Map.find]
+    simp only [KeyOp.key] at hidx hb
+    rw [hidx, hb]
+
+/-- COMMUTATION: two single-bucket operations whose keys fall into different buckets commute — both orders end in
+    the same map, and each operation returns the same result in either order.  (With the lock discipline — the body
+    of a single-bucket operation runs entirely under that bucket's lock, `C18_lock_discipline` — this is what makes
+    every interleaving of such operations equivalent to a sequential order.) -/
+theorem C18_commute_distinct_buckets {V} (m : Map V) (o1 o2 : KeyOp V) (hb : m.idx o1.key ≠ m.idx o2.key) :
+    ((m.step o1.op).1.step o2.op).1 = ((m.step o2.op).1.step o1.op).1 ∧
+    ((m.step o1.op).1.step o2.op).2 = (m.step o2.op).2 ∧
+    ((m.step o2.op).1.step o1.op).2 = (m.step o1.op).2 := by
+  have e1 := step_keyop_shape m o1
+  have e2 := step_keyop_shape m o2
+  refine ⟨?_, ?_, ?_⟩
+  · rw [step_keyop_shape (m.step o1.op).1 o2, step_keyop_shape (m.step o2.op).1 o1, e1, e2]
+    simp only [Map.idx] at hb ⊢
+    rw [modify_comm _ _ _ _ _ hb]
+  · apply step_keyop_result
+    · rw [e1]
+    · rw [e1]
+    · rw [e1]; exact getD_modify_ne _ _ _ _ _ hb
+  · apply step_keyop_result
+    · rw [e2]
+    · rw [e2]
+    · rw [e2]; exact getD_modify_ne _ _ _ _ _ (Ne.symm hb)
 end Via
